@@ -240,11 +240,15 @@ Example C09_eq_detects_displacement_nonvacuous :
 Proof. repeat split; try (vm_compute; reflexivity). vm_compute. intros H. apply H. reflexivity. Qed.
 
 (* a lattice whose positions are float32 numbers (multiples of 1/8) *)
+Definition ex_lat32 : lat :=
+  mkLat [(1 # 8, 3 # 8); (5 # 8, 1 # 4); (7 # 8, 3 # 4)]%Q F64 [(0, 1); (1, 2); (2, 0)] I64
+        [(0, 0); (0, 0); (1, 0)] I64 fresh_cache.
+
 Example C09_roundtrip_exact_on_float32_nonvacuous :
-  let L := mkLat [(1 # 8, 3 # 8); (5 # 8, 1 # 4); (7 # 8, 3 # 4)]%Q F64 [(0, 1); (1, 2); (2, 0)] I64
-                 [(0, 0); (0, 0); (1, 0)] I64 fresh_cache in
-  wf_lat L = true /\ roundtrip L <> None /\ (forall p, In p (l_pos L) -> qpair_eq (round32_2 p) p).
+  wf_lat ex_lat32 = true /\ roundtrip ex_lat32 <> None /\
+  (forall p, In p (l_pos ex_lat32) -> qpair_eq (round32_2 p) p).
 Proof.
-  repeat split; try (vm_compute; reflexivity); try (vm_compute; discriminate);
-    simpl in H; repeat (destruct H as [<-|H]; [vm_compute; reflexivity|]); destruct H.
+  split; [vm_compute; reflexivity|]. split; [vm_compute; discriminate|].
+  intros p H. change (l_pos ex_lat32) with [(1 # 8, 3 # 8); (5 # 8, 1 # 4); (7 # 8, 3 # 4)]%Q in H.
+  destruct H as [<-|[<-|[<-|[]]]]; split; vm_compute; reflexivity.
 Qed.
